@@ -423,36 +423,20 @@ func (r *Reader) FindBlockForKey(key []byte) ([]BlockLocator, error) {
 	r.mu.RLock()
 	defer r.mu.RUnlock()
 
-	var blocks []BlockLocator
-	seenBlocks := make(map[uint64]bool)
-
-	// First try binary search for efficiency - find the first block
-	// where the first key is >= our target key
+	// The index contains the first key of each block, so the only block
+	// that can contain the key is the last one whose first key is <= key
 	indexIter := r.indexBlock.Iterator()
-	indexIter.Seek(key)
-
-	// If the seek fails, start from beginning to check all blocks
-	if !indexIter.Valid() {
-		indexIter.SeekToFirst()
+	if !indexIter.SeekForPrev(key) {
+		// The key sorts before the first key of the table
+		return nil, nil
 	}
 
-	// Process all potential blocks (starting from the one found by Seek)
-	for ; indexIter.Valid(); indexIter.Next() {
-		locator, err := ParseBlockLocator(indexIter.Key(), indexIter.Value())
-		if err != nil {
-			continue
-		}
-
-		// Skip blocks we've already seen
-		if seenBlocks[locator.Offset] {
-			continue
-		}
-		seenBlocks[locator.Offset] = true
-
-		blocks = append(blocks, locator)
+	locator, err := ParseBlockLocator(indexIter.Key(), indexIter.Value())
+	if err != nil {
+		return nil, err
 	}
 
-	return blocks, nil
+	return []BlockLocator{locator}, nil
 }
 
 // SearchBlockForKey searches for a key within a specific block
